@@ -480,7 +480,7 @@ func runC13(c *core.Ctx) core.Meta {
 	for _, fn := range pi.Funcs {
 		var kname *ssa.Parameter
 		for _, prm := range fn.Params {
-			if prm.Name() == "kernelName" {
+			if core.PinnedName(fn, prm.Name()) == "kernelName" {
 				kname = prm
 			}
 		}
